@@ -5,6 +5,7 @@ mod c23;
 mod c24;
 mod c25;
 mod c26;
+mod c27;
 mod common;
 mod gens;
 
@@ -28,6 +29,7 @@ fn main() {
         "C24" => c24::run(&ctx),
         "C25" => c25::run(&ctx),
         "C26" => c26::run(&ctx),
+        "C27" => c27::run(&ctx),
         other => {
             eprintln!("capyv-lib: no in-process check for {other}");
             2
